@@ -126,6 +126,8 @@ const char *rt_class_name (int cls);
 void rt_violation (const char *prop, int cls, const char *site, const char *fmt, ...) __attribute__ ((format (printf, 4, 5)));
 void rt_violation_v (const char *prop, int cls, const char *site, const char *fmt, va_list ap);
 void rt_init ();
+void rt_cov_accumulate ();
+void rt_cov_restore ();
 void rt_reset_run (uint64_t seed);
 int rt_run (const struct nsim_family *fam);
 int64_t rt_cpp_now ();
